@@ -5,7 +5,7 @@ import sys, os, json, subprocess, glob
 ROOT = os.path.dirname(os.path.dirname(os.path.abspath(__file__)))
 REPO = os.environ.get('VERIF_REPO', '/repo')
 ENV = dict(os.environ, GOFLAGS='-mod=mod', GOPROXY='off', GOSUMDB='off', GOTOOLCHAIN='local')
-EXTRA = {'C09_r5m3': ['C13'], 'C09_r5m2': ['C14'], 'C15_r5m1': ['C17'], 'C03_r5m1': ['C12'], 'C03_r5m2': ['C13'], 'C03_r5m3': ['C13'], 'C08_r5m1': ['C03', 'C16'], 'C10_r5m3': ['C11'], 'C01_r5m1': ['C16'], 'C01_r5m3': ['C16'], 'C12_r5m1': ['C19'], 'C12_r5m3': ['C10'], 'C07_m2': ['C09'], 'C05_m2': ['C07'], 'C02_r2m3': ['C09'], 'C04_r2m2': ['C05'], 'C01_r2m3': ['C02'], 'C09_r3m3': ['C11'], 'C18_r4m2': ['C11'], 'C18_r4m3': ['C11']}
+EXTRA = {'C13_r6m2': ['C10'], 'C09_r5m3': ['C13'], 'C09_r5m2': ['C14'], 'C15_r5m1': ['C17'], 'C03_r5m1': ['C12'], 'C03_r5m2': ['C13'], 'C03_r5m3': ['C13'], 'C08_r5m1': ['C03', 'C16'], 'C10_r5m3': ['C11'], 'C01_r5m1': ['C16'], 'C01_r5m3': ['C16'], 'C12_r5m1': ['C19'], 'C12_r5m3': ['C10'], 'C07_m2': ['C09'], 'C05_m2': ['C07'], 'C02_r2m3': ['C09'], 'C04_r2m2': ['C05'], 'C01_r2m3': ['C02'], 'C09_r3m3': ['C11'], 'C18_r4m2': ['C11'], 'C18_r4m3': ['C11']}
 
 
 def sh(cmd, cwd=ROOT, timeout=3600):
